@@ -37,8 +37,9 @@ EXEMPT = {("SemiAsyncValueIteration", "key"): "advanced only under shuffle_state
 def save_paths(ctx, cls):
     """attr -> field path, from the constructor-call tree returned by solver_state."""
     owner, fn = ctx.ct.require(cls, "solver_state")
-    rets = [n for n in ast.walk(fn) if isinstance(n, ast.Return) and n.value is not None]
-    if len(rets) != 1 or not isinstance(rets[0].value, ast.Call):
+    from .common import returned_expr
+    rv = returned_expr(fn)
+    if not isinstance(rv, ast.Call):
         raise AnalysisError(f"{cls.name}.solver_state: expected a single `return <State>(...)`")
     out: dict[str, tuple] = {}
     ctor_calls = []
@@ -60,7 +61,7 @@ def save_paths(ctx, cls):
             else:
                 out["<expr:" + ast.unparse(v) + ">"] = prefix + (kw.arg,)
 
-    walk(rets[0].value, ())
+    walk(rv, ())
     return owner, fn, out, ctor_calls
 
 
